@@ -175,8 +175,13 @@ func checkC02(c C02Case, o *Obs) error {
 		o.NT = len(c.Recs) >= 2 || bigRead
 		var all bytes.Buffer
 		var keeper marshalKeeper
+		var fields [][]byte
 		for i, r := range c.Recs {
-			fq := &fastq.Fastq{Name: bytes.Clone(r.Name), Sequence: bytes.Clone(seqs[i]), Quals: bytes.Clone(quals[i])}
+			fields = append(fields, r.Name, seqs[i], quals[i])
+		}
+		ar := newArena(fields...)
+		for i, r := range c.Recs {
+			fq := &fastq.Fastq{Name: ar.field(3 * i), Sequence: ar.field(3*i + 1), Quals: ar.field(3*i + 2)}
 			var w bytes.Buffer
 			if err := fq.Write(&w); err != nil {
 				return fmt.Errorf("record %d: Write to a buffer failed: %v", i, err)
@@ -200,6 +205,9 @@ func checkC02(c C02Case, o *Obs) error {
 		}
 		(&fastq.Fastq{Name: []byte("another record"), Sequence: []byte("ACGTACGTAC"), Quals: []byte("IIIIIJJJJJ")}).MarshalText()
 		if err := keeper.verify(); err != nil {
+			return err
+		}
+		if err := ar.verify(); err != nil {
 			return err
 		}
 		items, err := readFastqItems(all.Bytes(), len(c.Recs)+4)
